@@ -24,7 +24,10 @@ dispatcher.py, signature.py, spec_parser.py, graph.py, utils.py, exceptions.py, 
 interactions of two features, behaviour that depends on history (the N-th time something happens, after a
 failure, after a copy, after a listener was added), on object identity / equality / hashing, on names chosen by
 the user, on the Python data model (descriptors, properties, __getattr__, slots, subclasses, dataclasses,
-enum kinds), or on the driver (threads, running loop or none, nested machines).  The failure must still be a
+enum kinds), or on the driver (threads, running loop or none, nested machines).  Also consider changes that only show
+after three or more steps, with two instances or two classes in play (class hierarchies, several models sharing a
+machine class, machines nested in callbacks of each other), or only for particular VALUES (falsy, equal-but-not-identical,
+unhashable, very large counts).  The failure must still be a
 violation of the property as stated above, not of something else.
 
 Already tried for this property (do not repeat):
